@@ -78,6 +78,7 @@ class Fn:
         self._descr = None
         self._occ = {}
         self._thr = None
+        self.cur_site = ("entry",)
 
     # ---- descriptions for stable obligation keys ------------------------------------------
     def descr_table(self):
@@ -280,13 +281,24 @@ class Fn:
         self.bump(st, l)
 
     def bump(self, st, l):
-        st.ver[l] = st.ver.get(l, 0) + 1
+        """local l is (re)defined at the current program point: its version becomes the definition site and every
+        fact that mentions its previous value is dropped"""
+        st.ver[l] = self.cur_site
         st.copy.pop(l, None)
         st.cmp.pop(l, None)
         st.dsc.pop(l, None)
         st.lenof.pop(l, None)
         if l in st.nz:
             st.nz = st.nz - {l}
+        for d in (st.copy, st.dsc, st.lenof):
+            dead = [k for k, v in d.items() if v[1] == l]
+            for k in dead:
+                del d[k]
+        dead = [k for k, v in st.cmp.items() if (v[1] is not None and v[1][1] == l) or (v[2] is not None and v[2][1] == l)]
+        for k in dead:
+            del st.cmp[k]
+        if st.ordf:
+            st.ordf = frozenset(f for f in st.ordf if f[0][1] != l and f[1][1] != l)
 
     def upd(self, st, av, ty, proj, val, depth):
         E = self.E
@@ -473,37 +485,65 @@ class Fn:
         for i, a in enumerate(self.args):
             st0.loc[i + 1] = a
         ins = {0: st0}
+        edges = {}
         visits = {}
         heads = {h for _, h in self.cfg.back_edges()}
         rpo = self.cfg.rpo()
         order = {b: i for i, b in enumerate(rpo)}
+        preds = self.cfg.pred
         work = {0}
         steps = 0
         while work:
             b = min(work, key=lambda x: order.get(x, 1 << 30))
             work.discard(b)
             steps += 1
-            if steps > 20000:
+            if steps > 30000:
                 raise RuntimeError("absint: no convergence in " + self.fpath)
             st = ins[b].clone()
             outs = self.block(b, st)
+            for k in [k for k in edges if k[0] == b]:
+                del edges[k]
+            touched = []
             for succ, s2 in outs:
                 if s2 is None:
                     continue
+                k = (b, succ)
+                if k in edges:
+                    edges[k] = self.merge(edges[k], s2, False, succ)[0]
+                else:
+                    edges[k] = s2
+                if succ not in touched:
+                    touched.append(succ)
+            for succ in touched:
+                sts = [edges[(p, succ)] for p in dict.fromkeys(preds[succ]) if (p, succ) in edges]
+                new = sts[0]
+                for s2 in sts[1:]:
+                    new = self.merge(new, s2, False, succ)[0]
                 old = ins.get(succ)
                 if old is None:
-                    ins[succ] = s2
+                    ins[succ] = new
                     work.add(succ)
                     continue
-                visits[succ] = visits.get(succ, 0) + 1
-                wid = succ in heads and visits[succ] > 3
-                merged, changed = self.merge(old, s2, wid)
-                if changed:
-                    ins[succ] = merged
+                if succ in heads:
+                    visits[succ] = visits.get(succ, 0) + 1
+                    wid = visits[succ] > 3
+                    th = self.thresholds() if wid else None
+                    loc = {}
+                    for l in set(old.loc) | set(new.loc):
+                        x, y = old.loc.get(l, BOT), new.loc.get(l, BOT)
+                        loc[l] = x if x == y else (E.widen(x, y, th) if wid else E.join(x, y))
+                    new = new.clone()
+                    new.loc = loc
+                if not self.same_state(old, new):
+                    ins[succ] = new
                     work.add(succ)
         return self.ret, self.effects
 
-    def merge(self, a, b, wid):
+    def same_state(self, a, b):
+        return (a.loc == b.loc and a.copy == b.copy and a.cmp == b.cmp and a.dsc == b.dsc and a.lenof == b.lenof
+                and a.ordf == b.ordf and a.nz == b.nz)
+
+    def merge(self, a, b, wid, at=None):
         E = self.E
         changed = False
         out = State()
@@ -523,9 +563,7 @@ class Fn:
         out.ver = dict(a.ver)
         for l in set(a.ver) | set(b.ver):
             if a.ver.get(l, 0) != b.ver.get(l, 0):
-                out.ver[l] = max(a.ver.get(l, 0), b.ver.get(l, 0)) + 1
-                if a.ver.get(l, 0) != out.ver[l]:
-                    pass
+                out.ver[l] = ("phi", at)
         for name in ("copy", "cmp", "dsc", "lenof"):
             da, db = getattr(a, name), getattr(b, name)
             d = {}
@@ -555,7 +593,8 @@ class Fn:
     # ---- one block -----------------------------------------------------------------------------
     def block(self, bi, st):
         blk = self.blocks[bi]
-        for s in blk["s"]:
+        for si, s in enumerate(blk["s"]):
+            self.cur_site = (bi, si)
             if s["k"] == "assign":
                 self.assign(bi, st, s)
             elif s["k"] == "setdiscr":
@@ -569,6 +608,7 @@ class Fn:
                         full = self.E.expand(("t", ty))
                         fl = dict(full[2]).get(s["vidx"], ()) if full[0] == "e" else ()
                     self.write(st, pl["l"], proj_of(pl), ("e", ex[1], ((s["vidx"], fl),)))
+        self.cur_site = (bi, "t")
         return self.term(bi, st, blk["t"])
 
     def assign(self, bi, st, s):
@@ -648,6 +688,10 @@ class Fn:
                     m = (1 << t["bits"]) - 1
                     return ("i", m - iv[2], m - iv[1]), None
             if op == "PtrMetadata":
+                facts = None
+                src = self.slice_src(st, rv["x"], av)
+                if src is not None:
+                    facts = ("lenof", src)
                 a = E.expand(av)
                 if a[0] == "r":
                     tg = a[1]
@@ -658,8 +702,8 @@ class Fn:
                         v, _ = self.read(st, tg[1], tg[2])
                         v = E.expand(v) if v != BOT else v
                     if v is not None and v != BOT and v[0] == "l":
-                        return ("i", v[1], v[2]), None
-                return ("i", 0, MAXLEN), None
+                        return ("i", v[1], v[2]), facts
+                return ("i", 0, MAXLEN), facts
             return UNK, None
         if k == "cast":
             return self.cast(bi, st, rv, s), None
@@ -699,6 +743,10 @@ class Fn:
         if op in CMPS:
             facts = ("cmp", (op, self.src_of(st, rv["l"]), self.src_of(st, rv["r"]),
                              ia if rv["l"]["k"] == "const" else None, ib if rv["r"]["k"] == "const" else None))
+            if op in ("Lt", "Le", "Gt", "Ge") and st.ordf:
+                r = self.decide_by_order(st, op, rv["l"], rv["r"])
+                if r is not None:
+                    return r, facts
             if op in ("Eq", "Ne"):
                 for o1, i2 in ((rv["l"], ib), (rv["r"], ia)):
                     if o1["k"] in ("copy", "move") and not o1["pl"]["p"] and o1["pl"]["l"] in st.nz and i2 and i2[1] == i2[2] == 0:
@@ -747,6 +795,75 @@ class Fn:
         if wo:
             return ("s", (res, fl)), None
         return res, None
+
+    def _same_value(self, st, s1, s2):
+        """two sources denote the same runtime value: identical, or both are the length of the same slice"""
+        if s1 == s2:
+            return True
+        def len_src(s):
+            if s is not None and not s[2] and st.ver.get(s[1], 0) == s[3]:
+                return st.lenof.get(s[1])
+            return None
+        a, b = len_src(s1), len_src(s2)
+        return a is not None and a == b and st.ver.get(a[1], 0) == a[3]
+
+    def decide_by_order(self, st, op, lo_, ro_):
+        sa, sb = self.own_src(st, lo_), self.own_src(st, ro_)
+        if sa is None or sb is None:
+            return None
+        for (x, y, strict) in st.ordf:       # x > y (strict) or x >= y
+            if st.ver.get(x[1], 0) != x[3] or st.ver.get(y[1], 0) != y[3]:
+                continue
+            for xs in (x, self._orig(st, x)):
+                for ys in (y, self._orig(st, y)):
+                    # a op b with a ~ y, b ~ x  (i.e. b > a)
+                    if any(self._same_value(st, sa2, ys) for sa2 in (sa, self._orig(st, sa))) and any(self._same_value(st, sb2, xs) for sb2 in (sb, self._orig(st, sb))):
+                        if op == "Lt" and strict:
+                            return TRUE
+                        if op == "Le":
+                            return TRUE
+                        if op == "Ge" and strict:
+                            return FALSE
+                        if op == "Gt":
+                            return FALSE
+                    if any(self._same_value(st, sa2, xs) for sa2 in (sa, self._orig(st, sa))) and any(self._same_value(st, sb2, ys) for sb2 in (sb, self._orig(st, sb))):
+                        if op == "Gt" and strict:
+                            return TRUE
+                        if op == "Ge":
+                            return TRUE
+                        if op == "Le" and strict:
+                            return FALSE
+                        if op == "Lt":
+                            return FALSE
+        return None
+
+    def own_src(self, st, o):
+        if o["k"] in ("copy", "move"):
+            l = o["pl"]["l"]
+            return ("pl", l, proj_of(o["pl"]), st.ver.get(l, 0))
+        return None
+
+    def _orig(self, st, s):
+        """origin of a plain copy"""
+        if s is not None and not s[2] and s[1] in st.copy and st.ver.get(s[1], 0) == s[3]:
+            return st.copy[s[1]]
+        return s
+
+    def slice_src(self, st, operand, av):
+        """canonical source place of the slice/str a reference operand points to (through reborrows and plain copies)"""
+        if av is not None and av != BOT and av[0] == "r" and av[1][0] == "loc":
+            l, proj = av[1][1], tuple(av[1][2])
+            ver = st.ver.get(l, 0)
+            if l in st.copy and proj and proj[0] == ("*",):
+                o = st.copy[l]
+                if st.ver.get(o[1], 0) == o[3]:
+                    return ("pl", o[1], tuple(o[2]) + proj, o[3])
+            return ("pl", l, proj, ver)
+        if operand is not None and operand["k"] in ("copy", "move"):
+            src = self.src_of(st, operand)
+            if src is not None:
+                return ("pl", src[1], tuple(src[2]) + (("*",),), src[3])
+        return None
 
     def cast(self, bi, st, rv, s):
         E = self.E
